@@ -1,14 +1,20 @@
 pub mod addsub;
+pub mod bits;
+pub mod bytes;
 pub mod div;
 pub mod mul;
+pub mod text;
 
 use crate::rec::Rec;
 
 pub fn run(name: &str, r: &mut Rec) -> bool {
     match name {
         "addsub" => addsub::run(r),
+        "bits" => bits::run(r),
+        "bytes" => bytes::run(r),
         "div" => div::run(r),
         "mul" => mul::run(r),
+        "text" => text::run(r),
         _ => return false,
     }
     true
